@@ -13,8 +13,14 @@ RULE = ("generated applications (3 levels; per level a random subset of char/int
         "enumerated (#3) and pointer sub-trees; preset selectors with dependent defaults; toggles that allocate / free "
         "a pointer sub-tree; enabled-by on embedded sub-trees in its three forms: sibling toggle, toggle inside the sub-tree, rSelf) x states reached by 0..14 random parameter messages "
         "(in range, at and beyond each bound, type extremes, symbols, strings with quotes/newlines/%/backslashes); "
+        "every 5th application is a HISTORY on one instance: messages, save, more messages (a preset selector moved to another "
+        "entry of its table, one of its dependents put back on the old entry's default), save again - two or three saves, each file "
+        "judged against the state at that moment and loaded into a fresh instance; around every save get_changed_values is called "
+        "twice and get_default_value directly for every existing port (forwards and backwards); every 9th application has port names "
+        "of 18..34 characters (addresses of 20..105 columns: the saved line breaks right behind its address); rSelf(.., rEnabledBy) "
+        "also on the root table; "
         "plus hand-written files with a wrong header, another application name, an unparsable line, a line no port "
-        "accepts.  Non-trivial = at least 2 saved lines or a rejected file.")
+        "accepts.  Non-trivial = at least 2 saved lines (history: at least 2 non-empty files) or a rejected file.")
 TRUSTED = ["harness/h_C12.cpp + h_C12_app.h + h_C12_node.inc: the application family (macro-generated callbacks, run-time "
            "port tables, rChangeCb hook for preset selectors and pointer sub-tree toggles), the state dump, the use of the "
            "library's own scanner (rtosc_scan_message + arg-val iterator) to read the saved lines back",
